@@ -236,7 +236,7 @@ pub fn structure_walk(r: &InstructionGeneratorResult) -> Structure {
                 n_branches += 1;
                 check("Return", i, t, true, &mut v);
             }
-            Instruction::ResumeLabel(t) => {
+            Instruction::ResumeLabel(t, ..) => {
                 n_branches += 1;
                 check("ResumeLabel", i, t, false, &mut v);
             }
